@@ -32,7 +32,7 @@ CHECKS = {
                 note="Pre-snap values observed at the module's digitize_data name; tolerances 1e-12 (Halton) and 1e-9 (R-sequence)."),
     "C16": dict(engine="compsim+calsim", category="exploration", design="4/C16",
                 technique="deterministic simulation: read-only hash monitor at the sampler seam, scripted stub-surrogate peer, best-batch descent oracle on grid indices",
-                text="(a) lent history arrays (those of the current call and every array lent at an earlier call; fresh arrays or views of one buffer) hashed before/after every sample() of all nine samplers with ties/inf/float32-overflowing losses, in op sequences and whole calibrations; (b) a stub surrogate with scripted fit/predict (ties, negative, huge, infinite) must be trained on exactly the history and return the snapped batch_size lowest-prediction candidates; (c) every best-batch proposal must descend from one of the batch_size lowest-loss points by 1..range-1 grid steps.",
+                text="(a) lent history arrays (those of the current call and every array lent at an earlier call; fresh arrays or views of one buffer) hashed before/after every sample() of all nine samplers with ties/inf/float32-overflowing/zero-variance losses, in op sequences and whole calibrations; (b) a stub surrogate with scripted fit/predict (ties, negative, huge, infinite) must be trained on exactly the history and return the snapped batch_size lowest-prediction candidates; (c) every best-batch proposal must descend from one of the batch_size lowest-loss points by 1..range-1 grid steps.",
                 note="Ties at the selection threshold may be broken either way; clipping or snapping both count as 'confined to the space'."),
     "C09": dict(engine="calsim", category="exploration", design="4/C09",
                 technique="deterministic simulation: op histories (calibrate / crash+restore / crash-inside-batch+restore) on a real Calibrator, sampler-seam record compared with reference round-robin and RL scheduling models",
@@ -40,7 +40,7 @@ CHECKS = {
                 note="Which pending action is dropped at a session end is deliberately left to C10."),
     "C11": dict(engine="calsim", category="fault_enumeration", design="4/C11",
                 technique="deterministic simulation with fault injection: an exception injected at EVERY invocation index of the model, the loss and sample() of sampled configurations, compared against the fault-free twin",
-                text="For each sampled configuration (<= 6 batches, round-robin and RL, with/without folder, n_jobs 1 and >1) every single fault position is enumerated; the injected exception must come out of calibrate(), the history must be aligned and bitwise equal to the fault-free run's prefix at a batch boundary, no simulated thread may be alive and no message queued, the folder (if any) must restore to a batch boundary, and the next calibrate(m) must work and extend the history consistently.",
+                text="For each sampled configuration (<= 6 batches, round-robin and RL, with/without folder, n_jobs 1 and >1) every single fault position is enumerated; the injected exception must come out of calibrate(), the history must be aligned and bitwise equal to the fault-free run's prefix at a batch boundary, no simulated thread may be alive, no managed worker pool (joblib context-manager protocol, modelled by the simulated pool) may still be entered and no message queued, the folder (if any) must restore to a batch boundary, and the next calibrate(m) must work and extend the history consistently.",
                 note="Configurations are sampled, fault positions within each are complete. Thread liveness is read from the baton scheduler's stand-ins, not from OS threads."),
     "C14": dict(engine="calsim", category="exploration", design="4/C14",
                 technique="deterministic simulation: loss sequences scripted through the model seam, reference stop model, verbose twin, restore of the written checkpoint",
